@@ -165,7 +165,7 @@ func runC17(t *testing.T, seed uint64, planJSON []byte, tier string) (res *Resul
 		tape = simkit.NewTape(seed)
 	}
 	replaying := planJSON != nil
-	res.Harness = runBubble(t, func(t *testing.T) {
+	res.Harness = runBubbleP(t, plan, func(t *testing.T) {
 		ap := &ATPlan{Mode: "mixed", Cfg: plan.Cfg, Opts: plan.Opts, Tables: plan.Tables, Episodes: plan.Episodes}
 		w := bootAT(seed, tape, plan.Cfg, simnet.Config{FragmentPct: 10})
 		sim := w.Sim
